@@ -86,6 +86,8 @@ def src(case, d, cur_mod) -> str:
         return d[2] if d[1] == cur_mod else f"{d[1]}.{d[2]}"
     if k == "final":
         return f"typing.Final[{src(case, d[1], cur_mod)}]"
+    if k == "ref":
+        return d[1]          # the raw annotation text of an unresolvable member
     raise ValueError(d)
 
 
@@ -469,3 +471,79 @@ def random_case(rng: random.Random, depth=3):
 
 def topologies(n):
     return range(1 << (n * n))
+
+
+# ----------------------------------------------------------------------------------
+# wrapper chains (alias of alias, alias of NewType, NewType of alias, Final of alias of NewType ...)
+# ----------------------------------------------------------------------------------
+
+def mkchain(rng: random.Random, base, prefix: str, named: list, allow_final: bool):
+    """2-3 wrapper layers around base, in a random alternation; Final only as the outermost layer."""
+    length = rng.choice([2, 2, 3])
+    d = base
+    for k in range(length):
+        last = k == length - 1
+        kind = rng.choice(["newtype", "alias", "alias"] + (["final"] if (last and allow_final) else []))
+        if kind == "final":
+            d = ("final", d)
+        else:
+            d = (kind, MOD_A, f"{prefix}{k}", d)
+            named.append(d)
+    return d
+
+
+def chain_case(rng: random.Random, n: int):
+    """classes with members; every edge goes through a wrapper chain, used as a member, as a generic
+    argument, or (Final outermost) as a qualified member; the root is a chain, a class or a container"""
+    mask = rng.randrange(1, 1 << (n * n))
+    classes = [{"id": i, "module": MOD_A, "qual": f"C{i}", "flavour": "dataclass", "fields": [("s", INT)]} for i in range(n)]
+    named: list = []
+    shared = {}
+    for j in range(n):
+        if rng.random() < 0.6:
+            base = wrap(rng.choice(["plain", "plain", "list", "dict"]), ("cls", j))
+            shared[j] = mkchain(rng, base, f"S{j}x", named, False)
+    for i in range(n):
+        for j in range(n):
+            if not (mask >> (i * n + j)) & 1:
+                continue
+            if j in shared and rng.random() < 0.8:
+                w = shared[j]
+            else:
+                base = wrap(rng.choice(["plain", "plain", "list", "dict", "tuplevar"]), ("cls", j))
+                w = mkchain(rng, base, f"W{i}{j}x", named, False)
+            pos = rng.choice(["member", "member", "list", "dict", "opt", "tuplevar", "final"])
+            if pos == "member":
+                t = w
+            elif pos == "final":
+                t = ("final", w)
+            else:
+                t = wrap(pos, w, "opt")
+            classes[i]["fields"].append((f"f{j}", t))
+    r = rng.randrange(n)
+    rk = rng.choice(["chain", "chain", "chainfinal", "cls", "list_of_chain", "shared"])
+    if rk == "cls":
+        root = ("cls", r)
+    elif rk == "shared" and shared:
+        root = shared[rng.choice(sorted(shared))]
+    elif rk == "list_of_chain":
+        root = ("gen", "list", [mkchain(rng, ("cls", r), "Rx", named, False)])
+    else:
+        root = mkchain(rng, wrap(rng.choice(["plain", "plain", "list"]), ("cls", r)), "Rx", named, rk == "chainfinal")
+    return {"classes": classes, "named": named, "root": root, "tag": f"chains:n{n}:m{mask}:{rk}"}
+
+
+# ----------------------------------------------------------------------------------
+# unresolvable hints: typing.get_type_hints raises NameError, so EVERY member of the class comes from the
+# signature as ForwardRef(text, module=<class module>) and is walked unevaluated
+# ----------------------------------------------------------------------------------
+
+def unresolvable_case(rng: random.Random):
+    texts = ["Zed", "Zed", rng.choice(["Zed", "Yod", "list[Zed]"]), rng.choice(["int", "C1", "Zed", "dict[str, Zed]"])]
+    names = ["x", "y", "z", "w"][: rng.randint(2, 4)]
+    a = {"id": 0, "module": MOD_A, "qual": "C0", "flavour": "dataclass",
+         "fields": [(nm, ("ref", texts[i], MOD_A)) for i, nm in enumerate(names)]}
+    b = {"id": 1, "module": MOD_A, "qual": "C1", "flavour": "dataclass",
+         "fields": [("f0", wrap(rng.choice(["plain", "list", "opt"]), ("cls", 0), "opt")), ("s", INT)]}
+    root = rng.choice([("cls", 0), ("cls", 1), ("gen", "list", [("cls", 0)]), ("gen", "dict", [STR, ("cls", 1)])])
+    return {"classes": [a, b], "named": [], "root": root, "tag": "unresolvable"}
